@@ -92,7 +92,7 @@ def run(prop, root=None, jobs=16):
     work += [("patch", prop, pp, root) for _d, pp in refs]
     results = []
     if work:
-        with ProcessPoolExecutor(max_workers=min(jobs, len(work))) as ex:
+        with ProcessPoolExecutor(max_workers=min(jobs, len(work)), max_tasks_per_child=12) as ex:
             results = list(ex.map(run_variant, work))
     tally = {"faults_applied": 0, "faults_detected": 0, "refactorings_applied": 0, "refactorings_silent": 0,
              "seeded_applied": 0, "seeded_detected": 0, "stale": 0, "misses": [], "samples": []}
